@@ -121,7 +121,8 @@ class AbstractGradSampleModule(nn.Module, ABC):
         Deleted ``.grad_sample`` attribute from all model parameters
         """
         for p in self.parameters():
-            del p.grad_sample
+            if hasattr(p, "grad_sample"):
+                del p.grad_sample
 
     def to_standard_module(self) -> nn.Module:
         """
